@@ -74,7 +74,9 @@ def run(tier):
 
     progs = gen_programs(tier, rng)
     b_rngs = [random.Random(rng.getrandbits(64)) for _ in progs]
-    b_hist = [p.history_b('B', r) for p, r in zip(progs, b_rngs)]
+    # in the second Lexicon of the first few programs the string storage is brought to within a few slots of the end of its current block
+    # before the graph is built (its words are then spread over two blocks); the first Lexicon of each is fresh
+    b_hist = [p.history_b('B', r, fill=(3 + 5 * i if i < 8 else None)) for i, (p, r) in enumerate(zip(progs, b_rngs))]
 
     def script(i, keep=None):
         p = progs[i]
@@ -83,8 +85,8 @@ def run(tier):
         if keep is not None:
             texts = {p.ops[k][0] for k in keep}
             a = [c for c in a if c[2:] in texts]
-            b = [c for c in b if ' junk ' in c or ' scramble ' in c or c[2:] in texts]
-        cmds = ['new A'] + a + ['new B'] + b
+            b = [c for c in b if ' junk ' in c or ' scramble ' in c or ' fill ' in c or c[2:] in texts]
+        cmds = ['new A'] + a + ['new B'] + b + ['links A', 'links B']
         for root, route in p.roots:
             cmds.append('dump A %s' % root)
             cmds.append('dumpeq A %s B %s' % (root, root))
@@ -92,7 +94,7 @@ def run(tier):
                 cmds += ['print A %s %s loc=%d base=10' % (root, route, loc)] * 2
                 cmds.append('print B %s %s loc=%d base=10' % (root, route, loc))
             cmds.append('dump A %s' % root)
-        return cmds + ['del A', 'del B']
+        return cmds + ['links A', 'links B', 'del A', 'del B']
 
     scripts = [script(i) for i in range(len(progs))]
     index = {id(p): i for i, p in enumerate(progs)}
